@@ -27,6 +27,8 @@ pub struct Cubic {
 
     // Remote window. Limits the window size
     rwnd: f64,
+    // Same in bytes, exactly as the remote advertised it.
+    rwnd_bytes: usize,
 }
 
 impl core::fmt::Debug for Cubic {
@@ -61,6 +63,7 @@ impl Cubic {
             last_congestion_event: now,
 
             rwnd: 0.,
+            rwnd_bytes: 0,
             mss,
         }
     }
@@ -68,7 +71,13 @@ impl Cubic {
 
 impl CongestionController for Cubic {
     fn window(&self) -> usize {
-        (self.cwnd.max(2.).min(self.rwnd) * self.mss as f64) as usize
+        let cwnd = self.cwnd.max(2.);
+        if cwnd >= self.rwnd {
+            // Don't lose a byte of the remote window to the conversion there and back: a segment
+            // cut to fit it exactly would never be sent.
+            return self.rwnd_bytes;
+        }
+        (cwnd * self.mss as f64) as usize
     }
 
     fn sshthresh(&self) -> usize {
@@ -137,6 +146,7 @@ impl CongestionController for Cubic {
     }
 
     fn set_remote_window(&mut self, win: usize) {
+        self.rwnd_bytes = win;
         self.rwnd = win as f64 / self.mss as f64
     }
 
@@ -152,6 +162,7 @@ impl CongestionController for Cubic {
             self.ssthresh *= rescale;
             self.w_max *= rescale;
             self.w_max_last *= rescale;
+            self.rwnd *= rescale;
             self.mss = mss;
         }
     }
